@@ -47,6 +47,13 @@ func nontrivial(c Case, r worker.Resp) bool {
 	return true
 }
 
+func sampleKind(origin string) string {
+	if i := strings.IndexAny(origin, ":"); i >= 0 {
+		return origin[:i]
+	}
+	return origin
+}
+
 func panicClass(p string) string {
 	switch {
 	case strings.Contains(p, "index out of range"):
@@ -80,7 +87,11 @@ func eval(c Case) *pbt.Fail {
 	} else if !r.Hung && !r.Died && r.Panic == "" {
 		cls = append(cls, "returned-ok")
 	}
-	rec.Case(nontrivial(c, r), ev.Hash([]byte(c.Req.Entry), c.Req.Input, []byte(fmt.Sprint(c.Req.Reader))), cls...)
+	nt := nontrivial(c, r)
+	rec.Case(nt, ev.Hash([]byte(c.Req.Entry), c.Req.Input, []byte(fmt.Sprint(c.Req.Reader))), cls...)
+	if nt {
+		rec.Sample(sampleKind(c.Origin), worker.Render(c.Req, c.Origin, c.Ops, r))
+	}
 	switch {
 	case r.Panic != "":
 		key := fmt.Sprintf("%s/%s/%s", c.Req.Entry, r.PanicFrame, panicClass(r.Panic))
